@@ -1,42 +1,76 @@
-import MlModel.Model.ShardRecv
+import MlModel.Model.Merged
 /-!
-# Witnesses for C09 (`decide`d instances on the executable model) — tests, not property theorems
+# Witnesses for finding F10 (C09): the *unrepaired* `MergedSequences._index` / `slice`
 
-The seeded regression `C09-m4-from-state-keeps-receiver-range` builds the base of `from_state`'s replay
-with `dc.replace(self, _shard_state=ShardConfig())`, which keeps the RECEIVER's `_start` / `_end`
-(`Source.fromStateKeepRange`).  Restoring through the root is unchanged; restoring through a worker shard
-replays the chain inside the worker's own range.  These theorems show that
-`C09_from_state_receiver_independent` / `C09_iter_restore_any_receiver` are exactly what that change
-breaks (and that the shipped `from_state` does not): shard 1/2 of `range(10)`, two elements taken.
+Model of iter_utils.py `_index`/`slice` **before** the `fix:` commits 8525850 / 996f15d, restricted to
+non-negative indices, and `decide`d instances on which it disagrees with Python list semantics
+(`Merged.pyIndex` / `Merged.pySlice`).  These are tests of concrete instances, not property theorems;
+the findings are recorded as `fixed` in known_findings.d/C09.json and the property theorems in
+`Properties/C09.lean` are about the repaired code.
 -/
 namespace MlModel.Witness.C09
-open MlModel.Shard
+open MlModel MlModel.Merged
 
-def worker : Source := ⟨(DS.root 10).shardCore 1 2 0, false⟩
+/-- `bisect.bisect_left` on a sorted list: the number of leading entries `< x`. -/
+def bisectLeft : List Nat → Nat → Nat
+  | [], _ => 0
+  | y :: ys, x => if y < x then 1 + bisectLeft ys x else 0
 
-/-- the worker's iterator state after two elements -/
-theorem C09_m4_state_witness :
-    (SeqIter.nexts (List.range 10) 2 worker.iterate).2.state = .child 1 2 2 .dflt := by decide
+/-- The old `_index` for `index >= 0`:
+`idx_seq = bisect_left(indices, index)`; past the end → `(idx_seq - 1, None)`;
+`index == indices[idx_seq]` → `(idx_seq, 0)`; otherwise `(idx_seq - 1, index - indices[idx_seq - 1])`. -/
+def oldLocate (lens : List Nat) (index : Nat) : Nat × Option Nat :=
+  let indices := offsets lens
+  let idxSeq := bisectLeft indices index
+  if idxSeq = indices.length then (idxSeq - 1, none)
+  else if index = indices.getD idxSeq 0 then (idxSeq, some 0)
+  else (idxSeq - 1, some (index - indices.getD (idxSeq - 1) 0))
 
-/-- through the root both variants rebuild `[7, 8, 9]` … -/
-theorem C09_m4_root_unchanged_witness :
-    ((Source.root 10).fromStateKeepRange (.child 1 2 2 .dflt)).toOption.map (fun s => s.ds.elems (List.range 10))
-      = some [7, 8, 9] ∧
-    ((Source.root 10).fromState (.child 1 2 2 .dflt)).toOption.map (fun s => s.ds.elems (List.range 10))
-      = some [7, 8, 9] := by decide
+/-- The old `__getitem__` for `index >= 0`. -/
+def oldGetitem {α : Type} (parts : List (List α)) (index : Nat) : Except ErrKind α :=
+  let loc := oldLocate (parts.map List.length) index
+  match parts[loc.1]? with
+  | none => .error .index
+  | some s =>
+    match loc.2 with
+    | none => .error .type
+    | some i => orIndexError s[i]?
 
-/-- … through the worker itself the seeded variant rebuilds nothing (the shipped code: `[7, 8, 9]`) -/
-theorem C09_m4_keep_range_witness :
-    (worker.fromStateKeepRange (.child 1 2 2 .dflt)).toOption.map (fun s => s.ds.elems (List.range 10))
-      = some [] ∧
-    (worker.fromState (.child 1 2 2 .dflt)).toOption.map (fun s => s.ds.elems (List.range 10))
-      = some [7, 8, 9] := by decide
+/-- The old `slice` for bounds `0 <= a`, `0 <= b` (no normalisation, no `start >= stop` check). -/
+def oldSliceRanges (lens : List Nat) (a b : Nat) : List Rng :=
+  let start := oldLocate lens a
+  let stop := oldLocate lens b
+  if start.1 = lens.length then []
+  else if start.1 = stop.1 then [⟨start.1, start.2.getD 0, stop.2⟩]
+  else
+    ⟨start.1, start.2.getD 0, none⟩
+      :: ((List.range' (start.1 + 1) (stop.1 - (start.1 + 1))).map fun s => (⟨s, 0, none⟩ : Rng))
+      ++ (match stop.2 with
+          | some (k + 1) => [⟨stop.1, 0, some (k + 1)⟩]
+          | _ => [])
 
-/-- the seeded variant is not receiver independent on a reachable receiver -/
-theorem C09_m4_not_receiver_independent_witness :
-    Reach 10 false worker ∧
-    (worker.fromStateKeepRange (.child 1 2 2 .dflt)).toOption
-      ≠ ((Source.root 10).fromStateKeepRange (.child 1 2 2 .dflt)).toOption :=
-  ⟨Reach.shard 1 2 0 Reach.root rfl, by decide⟩
+def oldSliceElems {α : Type} (parts : List (List α)) (a b : Nat) : List α :=
+  (oldSliceRanges (parts.map List.length) a b).flatMap (rngElems parts)
+
+/-- F10a: an index at the start offset of an empty part resolves into the empty part. -/
+theorem F10a_witness :
+    oldGetitem [[], [0]] 0 = .error .index ∧ pyIndex ([[], [0]] : List (List Nat)).flatten 0 = .ok 0 :=
+  ⟨rfl, rfl⟩
+
+theorem F10a_witness_middle :
+    oldGetitem [[0, 1], [], [2]] 2 = .error .index ∧
+    pyIndex ([[0, 1], [], [2]] : List (List Nat)).flatten 2 = .ok 2 :=
+  ⟨rfl, rfl⟩
+
+/-- F10c: an inverted slice whose start lies in a later part yields elements. -/
+theorem F10c_witness :
+    oldSliceElems [[0], [1]] 1 0 = [1] ∧ pySlice ([[0], [1]] : List (List Nat)).flatten (some 1) (some 0) = [] := by
+  decide
+
+/-- The repaired model on the same instances. -/
+theorem F10_repaired :
+    getitem [[], [0]] 0 = .ok 0 ∧ getitem [[0, 1], [], [2]] 2 = .ok 2 ∧
+    sliceElems [[0], [1]] (some 1) (some 0) = ([] : List Nat) :=
+  ⟨rfl, rfl, by decide⟩
 
 end MlModel.Witness.C09
